@@ -86,7 +86,8 @@ func writeTables(ctx *common.Ctx) map[string][][]string {
 	found := map[string][][]string{}
 	scan := ""
 	if err != nil {
-		ctx.Violate("translator failed to parse pkg/cl/control.go", nil, err.Error(), nil)
+		// no tables, no comparison: stop here (reported as a harness failure without a failing input)
+		panic("c15 translator: cannot parse pkg/cl/control.go: " + err.Error())
 	} else {
 		for _, d := range f.Decls {
 			gd, ok := d.(*ast.GenDecl)
@@ -122,8 +123,9 @@ func writeTables(ctx *common.Ctx) map[string][][]string {
 	for _, nd := range need {
 		rows, ok := found[nd.goName]
 		if !ok || len(rows) != nd.rows {
-			ctx.Violate("table not found in pkg/cl/control.go (or of another shape)", nd.goName, len(rows), nd.rows)
-			rows = make([][]string, nd.rows)
+			// the source no longer has the table under this name / shape (for instance after a renaming): the model
+			// cannot be instantiated, so nothing can be compared; this is NOT evidence of a wrong output
+			panic(fmt.Sprintf("c15 translator: table %s not found in pkg/cl/control.go (or of another shape: %d rows, expected %d); the translator must be adapted to the new source layout", nd.goName, len(rows), nd.rows))
 		}
 		if nd.rows == 1 {
 			fmt.Fprintf(&sb, "  %s := %s;\n", nd.field, gTexts(rows[0], nd.pad))
@@ -136,8 +138,7 @@ func writeTables(ctx *common.Ctx) map[string][][]string {
 		}
 	}
 	if len(scan) != 256 {
-		ctx.Violate("dirScanMap not found in pkg/cl/control.go (or not 256 bytes)", nil, len(scan), 256)
-		scan = strings.Repeat(".", 256)
+		panic(fmt.Sprintf("c15 translator: dirScanMap not found in pkg/cl/control.go (or not 256 bytes: %d); the translator must be adapted to the new source layout", len(scan)))
 	}
 	bits := make([]string, 256)
 	for i := 0; i < 256; i++ {
